@@ -16,6 +16,7 @@ from gen import synth  # noqa: E402
 
 WRAP = os.path.join(os.path.dirname(HERE), "c07_wrap.py")
 PREFIX = "S"
+MULTI_PREFIXES = ["expA", "expB"]       # experiment names of a two-experiment invocation (--bam_list)
 
 
 def natural_key(s):
@@ -73,6 +74,13 @@ def make_dataset(cfg, d):
         # a second alignment file (other reads): the input of the "earlier run with other inputs" of the history scenarios
         paths["bam_alt"] = ds.write(d, bam_name="reads_alt.bam", reads=[r for i, r in enumerate(ds.reads) if i % 3 != 0],
                                     write_ref=False)["bam"]
+        if cfg.get("multi"):
+            # a second experiment (--bam_list): every other aligned read, and every unaligned one
+            paths["bam_b"] = ds.write(d, bam_name="reads_b.bam", write_ref=False,
+                                      reads=[r for i, r in enumerate(ds.reads) if i % 2 == 0 or (r["flag"] & 4)])["bam"]
+            paths["bam_list"] = os.path.join(d, "bams.list")
+            with open(paths["bam_list"], "w") as f:
+                f.write("#%s\n%s\n#%s\n%s\n" % (MULTI_PREFIXES[0], paths["bam"], MULTI_PREFIXES[1], paths["bam_b"]))
         with open(os.path.join(d, "groups.tsv"), "w") as f:
             for i, r in enumerate(ds.reads):
                 f.write("%s\tgrp%d\n" % (r["name"], i % 3))
@@ -94,8 +102,12 @@ def cli_args(cfg, data, threads=1, alt=False, saves=None, force=False):
     """alt: the other alignment file; saves: prefix of kept save files (--read_assignments instead of --bam)"""
     p = data["paths"]
     inp = ["--read_assignments", saves] if saves else ["--bam", p["bam_alt"] if alt else p["bam"]]
-    a = ["--threads", str(threads)] + inp + ["--reference", p["ref"], "--data_type", "nanopore",
-         "-p", PREFIX, "--no_gzip"] + (["--force"] if force else [])
+    if cfg.get("multi"):
+        inp = ["--bam_list", p["bam_list"]]
+    a = ["--threads", str(threads)] + inp + ["--reference", p["ref"], "--data_type", "nanopore"] + \
+        ([] if cfg.get("multi") else ["-p", cfg.get("prefix", PREFIX)]) + ["--no_gzip"] + (["--force"] if force else [])
+    if cfg.get("sqanti"):
+        a += ["--sqanti_output"]
     if cfg.get("genedb", True):
         a += ["--genedb", p["db"], "--complete_genedb"]
     if cfg.get("rg") == "inline":
@@ -126,6 +138,15 @@ def read_trace(state):
 def final_outputs(outdir, prefix=PREFIX):
     """hashes of the final files under <out>/<prefix>/ modulo the command-line/version header lines"""
     res = {}
+    if isinstance(prefix, (list, tuple)):             # several experiments: keys <experiment>/<file>
+        for px in prefix:
+            for fn, h in final_outputs(outdir, px).items():
+                res[px + "/" + fn] = h
+        for fn in sorted(os.listdir(outdir)) if os.path.isdir(outdir) else []:
+            if fn.startswith("combined_") and os.path.isfile(os.path.join(outdir, fn)):   # tables combined over the experiments
+                with open(os.path.join(outdir, fn), errors="replace") as f:
+                    res[fn] = hashlib.sha1(P.strip_cmdline(f.read()).encode()).hexdigest()
+        return res
     for fn, p in P.out_files(outdir, prefix).items():
         with open(p, errors="replace") as f:
             res[fn] = hashlib.sha1(P.strip_cmdline(f.read()).encode()).hexdigest()
